@@ -33,6 +33,14 @@ def run(chk: Check) -> None:
     # number of loop hops, so a pause followed by a play is carried out in that order (decision tables shared with C16)
     from .c16 import dispatch_tables
     dispatch_tables(chk, 'PAIR-play', 'PAIR-play')
+    # "pause()/play() never raise": the paused / played notifications go to a snapshot of the listeners, each inside its own try -- a one-shot listener that removes
+    # itself in on_process_paused does not break the loop (and with it the pause) with "Set changed size during iteration" (shared with C02)
+    from .c02 import listener_loop
+    listener_loop(chk, 'ESC-listener-loop')
+    # "the status message present before the pause is restored by play" -- also when the paused process went through a checkpoint in between: the paused flag, the
+    # status and the status remembered at the pause are part of what is saved (rows of the reference table of C07)
+    from .c07 import persisted_fields
+    persisted_fields(chk, 'PAIR-status', only={('processes.Process', '_paused'), ('processes.Process', '_status'), ('processes.Process', '_pre_paused_status')})
 
 
 def _calls(n):
